@@ -55,6 +55,7 @@ def run(rep, tier, seed):
     rep.assume("A1", "A4", "A6", "A8")
     D.run_contracts(rep, "C02", D.exact() + D.cg16(tier), tier)
     D.run_contracts(rep, "C02", D.bounds(), tier, also=("C13",))
+    D.run_contracts(rep, "C02", [("contracts.ilp", "ilp")], "lite" if tier == "quick" else tier, also=("C17",), only_tagged=True)      # ILP optimal under the assumed solver contract
     from contracts import enumerators as EN
     D.run_contracts(rep, "C02", EN.ALL, tier, also=("C13",))      # the enumerators CKK / SNP / RNP rest on
     D.run_static(rep, "C02", ("purity",))      # every per-call contract presupposes that results are functions of the arguments
